@@ -93,10 +93,16 @@ class Dykstra(E2Contract):
         mk.require(eps <= 1e-2)
         return dict(c_sys=c_sys, var=mk.array("var", n_var(kind, 2, m, False)), eps=eps)
 
+    def sample(self, cfg, names, rng):
+        vals = {n: rng.uniform(-1, 1) for n in names}
+        vals["eps"] = rng.choice([1e-2, 1e-3, 1e-6])
+        return vals
+
     def run(self, W, cfg, inp):
         kind, order, it = cfg
         tmpl = empty_obj(W, kind, inp["c_sys"], 2, False)
-        obj = tmpl.generate_from_var(W.np.copy(inp["var"]), mode_proj_order=order, eps_proj_physical=inp["eps"])
+        obj = tmpl.generate_from_var(W.np.copy(inp["var"]), mode_proj_order=order, eps_proj_physical=inp["eps"], is_estimation_object=True)
+        config_before = {k: v for k, v in vars(obj).items() if isinstance(v, (bool, int, float, str, type(None)))}
         res_v, hist_v = obj.calc_proj_physical_with_var(W.np.copy(inp["var"]), on_para_eq_constraint=False, max_iteration=it, is_iteration_history=True)
         res_o, hist_o = obj.calc_proj_physical(max_iteration=it, is_iteration_history=True)
 
@@ -105,7 +111,8 @@ class Dykstra(E2Contract):
         closure = obj.func_calc_proj_physical_with_var(on_para_eq_constraint=False, mode_proj_order=order, max_iteration=it)(W.np.copy(inp["var"]))
         return dict(res_v=res_v, hist_v={k: vecs(v) if k != "error_value" else list(v) for k, v in hist_v.items()},
                     res_o=res_o.to_stacked_vector(), hist_o={k: vecs(v) if k != "error_value" else list(v) for k, v in hist_o.items()},
-                    closure=closure, arg_after=obj.to_stacked_vector())
+                    closure=closure, arg_after=obj.to_stacked_vector(),
+                    config_kept=all(type(getattr(obj, k)) is type(v) and getattr(obj, k) == v for k, v in config_before.items()))
 
     def post(self, W, cfg, inp, out):
         kind, order, it = cfg
@@ -150,7 +157,9 @@ class Dykstra(E2Contract):
               eq("object-level==var-level/errors", ho["error_value"], hv["error_value"], "the same error values"),
               eq("object-level/result==last-x", out["res_o"], xs[-1], "the object-level result is the same point"),
               eq("closure==routine", out["closure"], out["res_v"], "func_calc_proj_physical_with_var(...)(var) == calc_proj_physical_with_var(var)"),
-              eq("argument-object-unchanged", out["arg_after"], x, "the projected object itself is not modified")]
+              eq("argument-object-unchanged", out["arg_after"], x, "the projected object itself is not modified"),
+              eq("argument-object-configuration-unchanged", out["config_kept"], True,
+                 "the projected object keeps its flags (is_physicality_required, is_estimation_object, constraint options, thresholds)")]
         # stopping rule: executed exactly `it` sweeps unless an earlier error value was below eps; the last one decides
         S = W.S
         stop_conds = []
